@@ -452,13 +452,14 @@ def oracle_here(pts, h):
 
 def main():
     ck = Check('C10')
-    ck.build_theories(['theories/Props/C10.vo', 'theories/Corr/HullK.vo'])
+    ck.build_theories(['theories/Props/C10.vo', 'theories/Props/C10b.vo', 'theories/Corr/HullK.vo'])
     # translator tie (T): the orientation test, convex_hull itself (sort key, early return, the condition / pop /
     # iteration of both chain loops, the assembly) and the Multi* / collection callers are regenerated from the
     # working tree and proved equal to HullM for all arguments; an abstention makes the GenEq lemmas fail (closed)
     rep = gen_hull.main(REPO, os.path.join(ck.rundir, 'HullGen.v'))
     ck.gen('HullGen.v', rep, 'HullGenEq.v')
     ck.props('Props/C10.v')
+    ck.props('Props/C10b.v')     # the hull ring is strictly convex; point-in-polygon of the hull polygon = open convex hull
     rng = ck.rng
     thorough = ck.tier == 'thorough'
     if thorough:       # independent re-check of the compiled property file and everything it depends on
